@@ -22,8 +22,20 @@ Definition ascii_lower (c : Z) : Z := if (Z.leb 65 c && Z.leb c 90)%bool then (c
 Definition utf8_len (c : Z) : Z :=
   if Z.ltb c 128 then 1%Z else if Z.ltb c 2048 then 2%Z else if Z.ltb c 65536 then 3%Z else 4%Z.
 Definition str_bytes (s : name) : Z := fold_right (fun c acc => (utf8_len c + acc)%Z) 0%Z s.
+(* str::to_lowercase on the code points that matter for a 3-byte test: ASCII upper case, and the non-ASCII code points
+   whose lower case has ANOTHER UTF-8 length (U+212A KELVIN SIGN, 3 bytes -> k, 1 byte; U+0130, 2 bytes -> i U+0307, 3 bytes;
+   U+1E9E CAPITAL SHARP S, 3 bytes -> U+00DF, 2 bytes).  Every other code point is left as it is (the generators use no
+   other cased non-ASCII letter). *)
+Definition ccy_lower_cp (c : Z) : list Z :=
+  if (Z.leb 65 c && Z.leb c 90)%bool then [(c + 32)%Z]
+  else if Z.eqb c 8490 then [107%Z]
+  else if Z.eqb c 304 then [105%Z; 775%Z]
+  else if Z.eqb c 7838 then [223%Z]
+  else [c].
+Definition ccy_lower (s : name) : name := flat_map ccy_lower_cp s.
+(* Ccy::try_new: the length test is on the LOWER-CASED string, which is what is stored *)
 Definition ccy_try_new (s : name) : outcome name :=
-  let c := map ascii_lower s in
+  let c := ccy_lower s in
   if Z.eqb (str_bytes c) 3 then Ok c else Err.
 
 (* ------------------------------------------------------------------ fxpair.rs *)
